@@ -37,7 +37,12 @@ def run(res, drv, tier, seed):
     n = 9 if tier == 'quick' else 60
     budgets = [250, 1000, 4000] if tier == 'quick' else [250, 1000, 4000, 16000]
     for ci in range(n):
-        prob = estgen.gen_problem(r, with_zeros=False, nmeas=r.randint(1, 4))
+        if ci < 3:
+            # measurement cycles of length 5 (6 in the thorough tier): the junction tree needs fill-in edges that depend on earlier fill-in
+            prob = estgen.gen_cycle_problem(r, 5 if tier == 'quick' or ci < 2 else 6)
+            res.count('structure:chordless-cycle')
+        else:
+            prob = estgen.gen_problem(r, with_zeros=False, nmeas=r.randint(1, 4))
         engine = ['MD', 'RDA', 'IG'][ci % 3]
         total = r.choice([None, float(prob['N'])])
         attrs = [a for a, _ in prob['dom']]
